@@ -275,6 +275,7 @@ package main
 // ---------------------------------------------------------------- C20: the authenticated-emails map is published atomically
 //@ prop C20
 //@ scan[usermap-pointer-atomic-only] atomic-only UserMap.m
+//@ scan[published-map-never-updated] frozen-after-publish main.(*UserMap).LoadAuthenticatedEmailsFile main.NewUserMap
 
 //@ func (*UserMap).LoadAuthenticatedEmailsFile
 //@ prop C20
